@@ -523,6 +523,23 @@ impl Observe for E4 {
     }
 }
 
+// a receiver none of whose fields can be named in the input (unknown-name error without alternatives)
+#[derive(FromMeta)]
+pub struct S17 {
+    #[darling(skip)]
+    s: PM<5801>,
+}
+observe_struct!(S17 { s });
+
+// an enum without variants
+#[derive(FromMeta)]
+pub enum E5 {}
+impl Observe for E5 {
+    fn observe(&self) -> Val {
+        match *self {}
+    }
+}
+
 // built-in and library conversions (judged for totality only)
 #[derive(FromMeta)]
 pub struct L1 {
@@ -625,7 +642,7 @@ pub fn run_meta_receiver(name: &str, entry: &MetaEntry, meta: &syn::Meta) -> Opt
         name,
         entry,
         meta,
-        [S1, S2, S3, S4, S5, S6, S7, S8, S9, S10, S11, S12, S13, S14, S15, S16, E4, N1, N2, Rec, F1, F2, F3, F4, U1, NT1, NT2, W1, E1, E2, E3, EH, WR, MP, L1, L2, L3, RHS, RBS, RHI, RBI, RHP, RHN, RBN, RHH, RBH, RHB, RBB, RHU, RBU]
+        [S1, S2, S3, S4, S5, S6, S7, S8, S9, S10, S11, S12, S13, S14, S15, S16, S17, E4, E5, N1, N2, Rec, F1, F2, F3, F4, U1, NT1, NT2, W1, E1, E2, E3, EH, WR, MP, L1, L2, L3, RHS, RBS, RHI, RBI, RHP, RHN, RBN, RHH, RBH, RHB, RBB, RHU, RBU]
     )
 }
 
@@ -1105,6 +1122,14 @@ impl Observe for FR6 {
     }
 }
 
+#[derive(FromAttributes)]
+pub struct AT4(AT1);
+impl Observe for AT4 {
+    fn observe(&self) -> V {
+        self.0.observe()
+    }
+}
+
 pub enum ElemInput<'a> {
     DeriveInput(&'a syn::DeriveInput),
     Field(&'a syn::Field),
@@ -1130,6 +1155,7 @@ pub fn run_elem_receiver(name: &str, input: &ElemInput) -> Option<Result<V, darl
         ("FR6", ElemInput::Field(f)) => ob(FR6::from_field(f)),
         ("DI9", ElemInput::DeriveInput(d)) => ob(DI9::from_derive_input(d)),
         ("AT3", ElemInput::Attributes(a)) => ob(AT3::from_attributes(a)),
+        ("AT4", ElemInput::Attributes(a)) => ob(AT4::from_attributes(a)),
         ("TR3", ElemInput::TypeParam(t)) => ob(TR3::from_type_param(t)),
         ("TR2", ElemInput::TypeParam(t)) => ob(TR2::from_type_param(t)),
         ("DI8", ElemInput::DeriveInput(d)) => ob(DI8::from_derive_input(d)),
